@@ -133,7 +133,16 @@ def run_task(task):
         run = e2.run_e2(I, flags, [], solve=False, text_kw={'sep': sep, 'colon': colon, 'trailer': task['trailer']})
         e.notes['J'] = run.inst
         e.notes['text'] = run.text
-        return run.solver.model
+        models = [('', task['twopl'], run.solver.model)]
+        if I.lprefs is not None and not getattr(run, 'sentinel_mode', False):
+            # a user who solves the SAME unchanged file again in one process, first with the other setting of -twopl and
+            # then with the original one: each read must again give the instance the file denotes under ITS flags
+            base = [a for a in run.argv if a != '-twopl']
+            other = run.ns.solver.Solver(base + ([] if task['twopl'] else ['-twopl']))
+            again = run.ns.solver.Solver(list(run.argv))
+            models += [('re-read with the other -twopl setting: ', not task['twopl'], other.model),
+                       ('third read, original flags: ', task['twopl'], again.model)]
+        return models
 
     E = S.Engine(max_paths=256, timeout=300)
     paths = E.explore(body)
@@ -155,12 +164,15 @@ def run_task(task):
             r, _ = S.holds(p.pc, ta == tb)
             res['queries'] += 1
             return r == 'unsat'
-        for name, ok in compare(p.result, Jd, task['twopl'], eq):
-            res['obligations'] += 1
-            if ok:
-                res['discharged'] += 1
-            else:
-                res['cex'].append({'tag': 'field/%s' % name, 'what': 'Model differs from the instance the file denotes: %s' % name, 'data': dict(task)})
+        for pre, tp, model in p.result:
+            Jm = J if tp else spec.Inst(J.na, J.ns, J.np, J.nl, J.prefs, J.plec, None, J.plq, J.puq, J.llq, J.lt, J.luq)
+            for name, ok in compare(model, Jm, tp, eq):
+                res['obligations'] += 1
+                if ok:
+                    res['discharged'] += 1
+                else:
+                    res['cex'].append({'tag': 'field/%s%s' % ('reread/' if pre else '', name),
+                                       'what': '%sModel differs from the instance the file denotes: %s' % (pre, name), 'data': dict(task)})
     res['sample'] = {'task': dict(task), 'file': paths[0].notes.get('text') if paths else None}
     return res
 
@@ -186,7 +198,9 @@ def replay(cex):
     sep, colon = VARIANTS[task['variant']]
     text = spec.inst_to_text(J, sep=sep, colon=colon, trailer=task['trailer'])
     ns = repo.load('real')
+    one = spec.Inst(J.na, J.ns, J.np, J.nl, J.prefs, J.plec, None, J.plq, J.puq, J.llq, J.lt, J.luq)
     d = tempfile.mkdtemp(prefix='vf_c10r_')
+    bad = []
     try:
         path = os.path.join(d, 'i.txt')
         # the path first holds a different instance (a user who edits a file and solves the same path again)
@@ -198,14 +212,19 @@ def replay(cex):
             pass
         with open(path, 'w') as f:
             f.write(text)
-        try:
-            s = ns.solver.Solver(['-f', path, '-na', str(I.na)] + (['-twopl'] if task['twopl'] else []))
-        except Exception as e:  # noqa
-            return True, 'file:\n%s\nSolver() raised %r' % (text, e)
+        # then the file under test; when it has second-side lists it is read again, unchanged, in this process with the
+        # other setting of -twopl and a third time with the original flags
+        reads = [('', task['twopl'])]
+        if I.lprefs is not None:
+            reads += [('re-read, other -twopl setting: ', not task['twopl']), ('third read, original flags: ', task['twopl'])]
+        for pre, tp in reads:
+            try:
+                s = ns.solver.Solver(['-f', path, '-na', str(I.na)] + (['-twopl'] if tp else []))
+            except Exception as e:  # noqa
+                return True, 'file:\n%s\n%sSolver() raised %r' % (text, pre, e)
+            bad += [pre + name for name, ok in compare(s.model, J if tp else one, tp, lambda a, b: a == b) if not ok]
     finally:
         shutil.rmtree(d, ignore_errors=True)
-    Jd = J if task['twopl'] else spec.Inst(J.na, J.ns, J.np, J.nl, J.prefs, J.plec, None, J.plq, J.puq, J.llq, J.lt, J.luq)
-    bad = [name for name, ok in compare(s.model, Jd, task['twopl'], lambda a, b: a == b) if not ok]
     return bool(bad), 'file (-na %d%s):\n%s\nfields that differ from the denoted instance: %s' % (
         I.na, ' -twopl' if task['twopl'] else '', text, bad or 'none')
 
